@@ -278,25 +278,30 @@ fn random(args: &Args) -> i32 {
             };
             w = World::new(&c, rng.range(0, 50));
         }
+        // keep numbers inside TLC's 32-bit range
+        if w.store.gt().minting_cost() > 5_000_000 || w.store.gt().total_minted() > 100_000 {
+            w = World::new(&c, 0);
+        }
         let u = 1 + rng.below(NUSERS as u64) as usize;
         let bal = w.users[u - 1].gt().amount();
         let cost = w.store.gt().minting_cost() as u64;
         let a = match rng.below(12) {
-            0..=2 => Act { op: "mint", u, n: rng.below(60) },
+            0..=2 => Act { op: "mint", u, n: rng.below(3 * c.step + 2) },
             3 | 4 => Act { op: "burn", u, n: if rng.chance(3, 4) { rng.below(bal + 1) } else { bal + 1 + rng.below(3) } },
-            5..=7 => Act { op: "mfv", u, n: rng.below(cost.saturating_mul(6).min(50_000) + 2) },
+            5..=7 => Act { op: "mfv", u, n: rng.below(cost.saturating_mul((3 * c.step + 1).min(6)).min(40_000_000) + 2) },
             8 => Act { op: "request", u, n: if rng.chance(3, 4) { rng.below(bal + 1) } else { bal + 1 } },
             9 => Act { op: "confirm", u: 0, n: 0 },
             10 => Act { op: "newvault", u: 0, n: 0 },
             _ => Act { op: "tick", u: 0, n: 1 + rng.below(3) },
         };
-        // keep numbers inside TLC's 32-bit range
-        if w.store.gt().minting_cost() > 20_000_000 || w.store.gt().total_minted() > 100_000 {
-            continue;
-        }
         let pre = w.project();
         let res = apply(&mut w, &a, ea);
         let post = w.project();
+        if w.store.gt().minting_cost() > 50_000_000 {
+            // beyond TLC's 32-bit products (cost * grow): abandon this run
+            w = World::new(&c, 0);
+            continue;
+        }
         emit(&mut sink, &c, &pre, &post, &a, &res, reset);
     }
     eprintln!("c30 random: {} events", sink.finish());
